@@ -21,8 +21,7 @@ def main():
     if a.replay:
         if hasattr(mod, 'replay'):
             sys.exit(mod.replay(a.replay))
-        print(open(a.replay).read())
-        sys.exit(0)
+        sys.exit(core.replay(mod, prop, a.replay))
     tier = a.tier if a.tier in ('quick', 'thorough') else 'quick'
     sys.exit(core.run_check(mod, prop, tier, seed))
 
